@@ -1,11 +1,131 @@
 import Driver.Util
-/- line-protocol commands of the Conc family (stub: filled in by the family's build) -/
+import Driver.Session
+import AsyncFix.Model.SchedRun
+
+/-!
+Line-protocol commands of the Sched family (`conc.*`).  Tokens as in `Driver/Session.lean`.
+
+* task     `send <now> <stamp> <msg>` | `tick <now> <stamp>` | `recv <now> <stamp> <msg>`
+* letter   `r<i>` | `pause` | `resume`
+
+Commands
+* `conc.sched <sr> <paused 0|1> <conn> T <task> T <task> … S <letter>*`
+      stateless: initial state, tasks, whole schedule.  Reply: one record per letter joined by ` | `,
+      each `<effects of the step, i:eff;…  or -> # <conn> # <task states> # <paused> <drainQ> <opened> <closed>`
+      (task states: `new` | `fin` | the yield point's name; drainQ: `i+` woken / `i-` blocked, `-` empty)
+* `conc.init …` (same arguments without `S …`) → `ok`, then `conc.step <letter>` → one record
+* `conc.seq <sr> <conn> T <task>`  the task run never interleaved (`runSeq`) next to the sequential model:
+      `<effects> # <conn> # <yields> # <same 0|1>`
+-/
 namespace Driver.Conc
 
+open AsyncFix.Session AsyncFix.Sched Driver.Session
+
 structure St where
-  unit : Unit := ()
+  s : Option SState := none
+
+def parseTask : List String → Option Task
+  | ["send", now, stamp, m] => do pure (.send (← parseEnv now stamp) (← parseMsg m))
+  | ["tick", now, stamp] => do pure (.tick (← parseEnv now stamp))
+  | ["recv", now, stamp, m] => do pure (.recv (← parseEnv now stamp) (← parseMsg m))
+  | _ => none
+
+def parseLetter (t : String) : Option Letter :=
+  if t == "pause" then some .pause
+  else if t == "resume" then some .resume
+  else match t.toList with
+    | 'r' :: ds => (String.ofList ds).toNat?.map .run
+    | _ => none
+
+/-- split a token list at every `sep` -/
+def splitAt (sep : String) (ts : List String) : List (List String) :=
+  let rec go : List String → List String → List (List String) → List (List String)
+    | [], cur, acc => (cur.reverse :: acc).reverse
+    | t :: r, cur, acc => if t == sep then go r [] (cur.reverse :: acc) else go r (t :: cur) acc
+  go ts [] []
+
+def showTState : TState → String
+  | .fin => "fin"
+  | .live none _ => "new"
+  | .live (some pt) _ => pt.name
+
+def showLog (es : List (Nat × Effect)) : String :=
+  if es.isEmpty then "-" else String.intercalate ";" (es.map fun p => toString p.1 ++ ":" ++ showEffect p.2)
+
+def showQ (q : List (Nat × Bool)) : String :=
+  if q.isEmpty then "-" else String.intercalate "," (q.map fun p => toString p.1 ++ (if p.2 then "+" else "-"))
+
+/-- the record of one step: the effects it appended and the state it left -/
+def record (before after : SState) : String :=
+  showLog (after.log.drop before.log.length) ++ " # " ++ showConn after.conn ++ " # "
+    ++ String.intercalate "," (after.tasks.map showTState) ++ " # "
+    ++ (if after.paused then "1" else "0") ++ " " ++ showQ after.drainQ ++ " "
+    ++ toString after.opened ++ " " ++ toString after.closed
+
+/-- `<sr> <paused> <conn> T task T task …` (no `S` part) -/
+def parseInit (args : List String) : Option SState :=
+  match args with
+  | srT :: pT :: rest => do
+    let sr ← parseSr srT
+    let paused ← parseBool pT
+    let (c, rest) ← parseConn rest
+    match rest with
+    | "T" :: ts => do
+      let tasks ← (splitAt "T" ts).mapM parseTask
+      pure (SState.init sr c tasks paused)
+    | [] => pure (SState.init sr c [] paused)
+    | _ => none
+  | _ => none
+
+def runRecords : SState → List Letter → List String → List String
+  | _, [], acc => acc.reverse
+  | s, l :: r, acc =>
+    let s' := s.step l
+    runRecords s' r (record s s' :: acc)
 
 def handle (st : St) (cmd : String) (args : List String) : St × String :=
-  (st, "bad-op")
+  match cmd with
+  | "sched" =>
+    match splitAt "S" args with
+    | [ini, letters] =>
+      match parseInit ini, letters.mapM parseLetter with
+      | some s, some ls => (st, String.intercalate " | " (runRecords s ls []))
+      | _, _ => (st, "bad-op")
+    | _ => (st, "bad-op")
+  | "init" =>
+    match parseInit args with
+    | some s => ({ st with s := some s }, "ok")
+    | none => (st, "bad-op")
+  | "step" =>
+    match st.s, args with
+    | some s, [l] =>
+      match parseLetter l with
+      | some l => let s' := s.step l; ({ st with s := some s' }, record s s')
+      | none => (st, "bad-op")
+    | _, _ => (st, "bad-op")
+  | "seq" =>
+    match args with
+    | srT :: rest =>
+      match parseSr srT, parseConn rest with
+      | some sr, some (c, "T" :: tk) =>
+        match parseTask tk with
+        | some t =>
+          let r := t.body sr c
+          let o := r.runSeq
+          let (c1, e1) : Conn × List Effect :=
+            match o with
+            | ⟨.ok _, c1, e1⟩ => (c1, e1)
+            | ⟨.error ex, c1, e1⟩ => (c1, e1 ++ [.raised ex])
+          let (c2, e2) : Conn × List Effect :=
+            match t with
+            | .send env m => appSend env c m
+            | .tick env => tick env c
+            | .recv env m => recv sr env c m
+          (st, showEffects e1 ++ " # " ++ showConn c1 ++ " # " ++ toString r.yieldsSeq ++ " # "
+            ++ (if showEffects e1 == showEffects e2 && showConn c1 == showConn c2 then "1" else "0"))
+        | none => (st, "bad-op")
+      | _, _ => (st, "bad-op")
+    | _ => (st, "bad-op")
+  | _ => (st, "bad-op")
 
 end Driver.Conc
